@@ -134,7 +134,7 @@ def run(ctx: RunCtx) -> None:
     case = gen_case(ch)
     ctx.sample = case
     ctx.case_key = repr(case)
-    sched = Scheduler(ch, ctx.log, trace_files={P.__file__}, preempt_budget=3, horizon=1500, time_leap=True,
+    sched = Scheduler(ch, ctx.log, trace_files={P.__file__}, preempt_budget=3, horizon=1500, time_leap=True, sync_preempts=2, sync_odds=6,
                       wall_limit=60.0)
     simtime = SimTime(sched)
     seen: set[str] = set()
